@@ -53,14 +53,9 @@ Definition dhms_ok (n : Z) : bool :=
   match dhms2sec (sec2dhms n), hms2sec (sec2hms n) with Some a, Some b => (a =? n) && (b =? n) | _, _ => false end.
 Lemma dhms_roundtrip_instances : forallb dhms_ok dhms_ints = true.
 Proof. Time vm_compute. reflexivity. Qed.
-Lemma dhms_minint64 :
-  dhms2sec (sec2dhms MIN64) = Some 9223372036854664192 /\ hms2sec (sec2hms MIN64) = Some (-9223372036854664192).
-Proof. vm_compute. split; reflexivity. Qed.
-
-Lemma dhms_refuted : exists n, in64 n = true /\ dhms2sec (sec2dhms n) <> Some n /\ hms2sec (sec2hms n) <> Some n.
-Proof.
-  exists MIN64. split; [reflexivity|]. destruct dhms_minint64 as [H1 H2]. rewrite H1, H2. split; discriminate.
-Qed.
+(* the former witness of the finding dhms-roundtrip-minint64, now a regression instance (repaired: uint64 magnitude) *)
+Lemma dhms_minint64 : dhms_ok MIN64 = true /\ sec2dhms MIN64 = B "-106751991167300d15h30m08s" /\ sec2hms MIN64 = B "-2562047788015215:30:08".
+Proof. vm_compute. repeat split; reflexivity. Qed.
 
 (* ---- regenerated zone tables *)
 Lemma gen_zones_wf : forallb wf_ztable gen_zones = true.
